@@ -128,6 +128,7 @@ static bool expect(Stage1Parser *p, TokenType type, const char *msg) {
 /* Forward declarations */
 static ASTNode *parse_statement(Stage1Parser *p);
 static ASTNode *parse_expression(Stage1Parser *p);
+static ASTNode *parse_operand(Stage1Parser *p);
 static ASTNode *parse_block(Stage1Parser *p);
 static ASTNode *parse_struct_def(Stage1Parser *p);
 static ASTNode *parse_enum_def(Stage1Parser *p);
@@ -1268,7 +1269,7 @@ static ASTNode *parse_primary(Stage1Parser *p) {
             int line = tok->line;
             int column = tok->column;
             advance(p);  /* consume 'not' */
-            ASTNode *operand = parse_primary(p);
+            ASTNode *operand = parse_operand(p);
             if (!operand) return NULL;
             ASTNode *not_node = create_node(AST_PREFIX_OP, line, column);
             not_node->as.prefix_op.op = TOKEN_NOT;
@@ -1283,7 +1284,7 @@ static ASTNode *parse_primary(Stage1Parser *p) {
             int line = tok->line;
             int column = tok->column;
             advance(p);  /* consume '-' */
-            ASTNode *operand = parse_primary(p);
+            ASTNode *operand = parse_operand(p);
             if (!operand) return NULL;
             ASTNode *neg_node = create_node(AST_PREFIX_OP, line, column);
             neg_node->as.prefix_op.op = TOKEN_MINUS;
@@ -2286,8 +2287,19 @@ static ASTNode *parse_if_expression(Stage1Parser *p) {
     return node;
 }
 
-/* Parse expression */
+/* Parse expression.  With operand_only, parse one operand: a primary with its
+ * postfix forms (.field, .index), but no infix operators. */
+static ASTNode *parse_expression_ex(Stage1Parser *p, bool operand_only);
+
 static ASTNode *parse_expression(Stage1Parser *p) {
+    return parse_expression_ex(p, false);
+}
+
+static ASTNode *parse_operand(Stage1Parser *p) {
+    return parse_expression_ex(p, true);
+}
+
+static ASTNode *parse_expression_ex(Stage1Parser *p, bool operand_only) {
     /* Recursion depth guard */
     p->recursion_depth++;
     if (p->recursion_depth > MAX_RECURSION_DEPTH) {
@@ -2298,19 +2310,19 @@ static ASTNode *parse_expression(Stage1Parser *p) {
         return NULL;
     }
     
-    if (match(p, TOKEN_IF)) {
+    if (!operand_only && match(p, TOKEN_IF)) {
         ASTNode *result = parse_if_expression(p);
         p->recursion_depth--;
         return result;
     }
     
-    if (match(p, TOKEN_COND)) {
+    if (!operand_only && match(p, TOKEN_COND)) {
         ASTNode *result = parse_cond_expression(p);
         p->recursion_depth--;
         return result;
     }
     
-    if (match(p, TOKEN_MATCH)) {
+    if (!operand_only && match(p, TOKEN_MATCH)) {
         ASTNode *result = parse_match_expr(p);
         p->recursion_depth--;
         return result;
@@ -2473,13 +2485,13 @@ static ASTNode *parse_expression(Stage1Parser *p) {
         /* Check for infix binary operator: expr op primary */
         {
             Token *cur = current_token(p);
-            if (cur && is_infix_binary_op(cur->token_type)) {
+            if (!operand_only && cur && is_infix_binary_op(cur->token_type)) {
                 TokenType op = cur->token_type;
                 int op_line = cur->line;
                 int op_col = cur->column;
                 advance(p);  /* consume operator */
 
-                ASTNode *right = parse_primary(p);
+                ASTNode *right = parse_operand(p);
                 if (!right) {
                     parser_error(p, op_line, op_col, "Error at line %d, column %d: Expected expression after operator\n",
                             op_line, op_col);
